@@ -7,7 +7,9 @@ import (
 	"fmt"
 	"math"
 	"math/bits"
+	"sort"
 	"testing"
+	"unsafe"
 
 	"github.com/openacid/low/bitword"
 	"pgregory.net/rapid"
@@ -476,12 +478,18 @@ func checkStr(bw bitword.Interface, n int, s string, sum uint64) *vk.Failure {
 	if !bytes.Equal(ws2, want) {
 		return vk.Failf("fromstr-again", "BitWord[%d].FromStr(%s), called a second time, = %s, want %s", n, hx(s), hx(ws2), hx(want))
 	}
-	trash(ws)
-	if !bytes.Equal(ws2, want) {
-		return vk.Failf("results-share-memory", "BitWord[%d].FromStr(%s) twice: writing into the first result changed the second (it now reads %s, want %s)", n, hx(s), hx(ws2), hx(want))
-	}
-	if back != s {
-		return vk.Failf("result-aliases-argument", "BitWord[%d].ToStr(ws) with ws = FromStr(%s): the returned string changed when ws was overwritten afterwards (it now reads %s)", n, hx(s), hx(back))
+	if overlapBytes(ws, ws2) {
+		// two equal calls handed out the same memory (a memo, an interned result): the statement does not exclude
+		// that, so the caller's write below - which would show in both - is left out for this case
+		vk.Label("fromstr:results-of-equal-calls-share-memory(accepted)", 1)
+	} else {
+		trash(ws)
+		if !bytes.Equal(ws2, want) {
+			return vk.Failf("results-share-memory", "BitWord[%d].FromStr(%s) twice: writing into the first result changed the second although the two do not overlap (it now reads %s, want %s)", n, hx(s), hx(ws2), hx(want))
+		}
+		if back != s {
+			return vk.Failf("result-aliases-argument", "BitWord[%d].ToStr(ws) with ws = FromStr(%s): the returned string changed when ws was overwritten afterwards (it now reads %s)", n, hx(s), hx(back))
+		}
 	}
 	arg3 := arg
 	if arg3 != s { // the first result may share memory with the argument: a pristine string then
@@ -831,24 +839,30 @@ func check(c Case) *vk.Failure {
 	if f := same2("second call", wss2); f != nil {
 		return f
 	}
-	for i := range wss {
-		vk.ScribbleBytes(wss[i])
-	}
-	for i := range wss {
-		if !bytes.Equal(wss[i], want[i]) {
-			return vk.Failf("results-share-memory", "BitWord[%d].FromStrs(%s): element %d changed (it now reads %s, want %s) when the caller wrote into the spare capacity of the elements or into the elements before it: elements of the result share memory", c.N, hxs(c.List), i, hx(wss[i]), hx(want[i]))
+	if anyOverlap(wss, wss2) {
+		// elements of the result(s) share memory (equal elements interned, a memo of the last call): not excluded by
+		// the statement, so the caller's writes below are left out for this case
+		vk.Label("fromstrs:result-elements-share-memory(accepted)", 1)
+	} else {
+		for i := range wss {
+			vk.ScribbleBytes(wss[i])
 		}
-		for k := range wss[i] {
-			wss[i][k] ^= 0xff
+		for i := range wss {
+			if !bytes.Equal(wss[i], want[i]) {
+				return vk.Failf("results-share-memory", "BitWord[%d].FromStrs(%s): element %d changed (it now reads %s, want %s) when the caller wrote into the spare capacity of the elements or into the elements before it, although no two elements overlap", c.N, hxs(c.List), i, hx(wss[i]), hx(want[i]))
+			}
+			for k := range wss[i] {
+				wss[i][k] ^= 0xff
+			}
 		}
-	}
-	if f := same2("second call, after the caller wrote into the result of the first call", wss2); f != nil {
-		f.Kind = "results-share-memory"
-		return f
-	}
-	for i, s := range pristine {
-		if back[i] != s {
-			return vk.Failf("result-aliases-argument", "BitWord[%d].ToStrs(FromStrs(%s))[%d]: the returned string changed when the word slices were overwritten after the call: it now reads %s, want %s", c.N, hxs(c.List), i, hx(back[i]), hx(s))
+		if f := same2("second call, after the caller wrote into the result of the first call", wss2); f != nil {
+			f.Kind = "results-share-memory"
+			return f
+		}
+		for i, s := range pristine {
+			if back[i] != s {
+				return vk.Failf("result-aliases-argument", "BitWord[%d].ToStrs(FromStrs(%s))[%d]: the returned string changed when the word slices were overwritten after the call: it now reads %s, want %s", c.N, hxs(c.List), i, hx(back[i]), hx(s))
+			}
 		}
 	}
 	strs3 := strs
@@ -1426,4 +1440,37 @@ func TestLast(t *testing.T) {
 		}
 	}
 	checker.RegressLast(t)
+}
+
+// overlapBytes reports whether the memory of two slices (up to their capacity) overlaps.
+func overlapBytes(a, b []byte) bool {
+	if cap(a) == 0 || cap(b) == 0 {
+		return false
+	}
+	a, b = a[:cap(a)], b[:cap(b)]
+	pa, pb := uintptr(unsafe.Pointer(&a[0])), uintptr(unsafe.Pointer(&b[0]))
+	return pa < pb+uintptr(len(b)) && pb < pa+uintptr(len(a))
+}
+
+// anyOverlap reports whether any two of the given slices overlap in memory (sorted intervals: n log n).
+func anyOverlap(lists ...[][]byte) bool {
+	type iv struct{ lo, hi uintptr }
+	var ivs []iv
+	for _, l := range lists {
+		for _, e := range l {
+			if cap(e) == 0 {
+				continue
+			}
+			e = e[:cap(e)]
+			p := uintptr(unsafe.Pointer(&e[0]))
+			ivs = append(ivs, iv{p, p + uintptr(len(e))})
+		}
+	}
+	sort.Slice(ivs, func(i, j int) bool { return ivs[i].lo < ivs[j].lo })
+	for i := 1; i < len(ivs); i++ {
+		if ivs[i].lo < ivs[i-1].hi {
+			return true
+		}
+	}
+	return false
 }
